@@ -19,6 +19,11 @@ import connhist  # noqa: E402
 import connrun  # noqa: E402
 import connspec  # noqa: E402
 
+# W5b-defect-1 (a reconnect attempt that succeeds inside shutdown()'s clean-up survives close()) is a genuine defect of the
+# pinned tree that is not repaired yet: "report" records it in the notes; set to "strict" once /repo carries the repair
+# (reports/W5b-defect-1.diff or an equivalent) - the section then demands a clean close() at every loop iteration.
+LATE_OPEN_DEFAULT = "report"
+
 ENVS = {
     # controller keeps sending: a frame every ~1 s / every ~9 s (just inside READER_TIMEOUT)
     "sending": ["A:1037", "F:f"] * 220,
@@ -411,6 +416,108 @@ def held_open_variant(res, tier):
                 loop.close()
 
 
+def late_open_variant(res, tier):
+    """A retry attempt of the connection's OWN chain that is created WHILE close() waits in Queues.join (so the first
+    cancel_tasks() of close() cannot know it) and whose open COMPLETES k event-loop iterations after join() returned, i.e.
+    somewhere inside the rest of shutdown(): cancel_tasks / wait_until_done / close_writer / device.shutdown, before the
+    second cancel_tasks() of close().  The machine's `shutdownRun` is one micro event; this section walks through it on the
+    implementation (`C12Clean.late_open_window` is the model-level witness of what an establishment inside it does).
+    Afterwards: close() returned, no library task pending, every transport ever opened is closed, not connected.
+    Report W5b-defect-1: on a tree without a guard against an establishment during the clean-up the section FAILS for
+    k = 3..8 (genuine defect, residual of D25).  VERIF_C12_LATE_OPEN=report turns the failures into notes."""
+    import asyncio
+    import os
+    from asyncio import events
+
+    import connfake
+    import vloop
+
+    strict = os.environ.get("VERIF_C12_LATE_OPEN", LATE_OPEN_DEFAULT) != "report"
+
+    class HeldConn(connfake.ScriptedConnection):
+        nopen = 0
+        hold_from = 3
+
+        @connfake.timeout(connfake.CONNECT_TIMEOUT)
+        async def _open_connection(self):
+            self.nopen += 1
+            if self.nopen >= self.hold_from:
+                await self.go.wait()
+            return await connfake.scripted_open(self)
+
+    def spin(loop, n):
+        events._set_running_loop(loop)
+        try:
+            for _ in range(n):
+                if not loop._ready:
+                    break
+                loop._run_once_nonblocking()
+        finally:
+            events._set_running_loop(None)
+
+    bad = []
+    for outcome in ("ok", "err"):
+        for off in range(0, 16):
+            loop = vloop.new_loop()
+            conn = HeldConn(script=["ok", "err", outcome, "ok"], reconnect_on_failure=True)
+            conn.go = asyncio.Event()
+            gate = asyncio.Event()
+
+            async def slow(device, gate=gate):
+                await gate.wait()
+
+            conn.protocol.subscribe_once("ecomax", slow)
+            loop.create_task(conn.connect(), name="harness-connect")
+            connfake.settle(loop)
+            conn.readers[-1].feed_data(connfake.password_frame())
+            connfake.settle(loop)            # a consumer sits in the slow subscriber: read queue unfinished
+            conn.readers[-1].feed_eof()
+            connfake.settle(loop)            # loss; the first attempt (inside the protocol's loss handler) fails
+            close = loop.create_task(conn.close(), name="harness-close")
+            connfake.settle(loop, 20.037)    # back-off over while close() waits in join: the retry is a task of the connection
+            held = conn.nopen >= conn.hold_from
+            in_join = (not close.done()) and "join" in connrun.coro_chain(close)
+            gate.set()                       # the subscriber returns: join() returns, shutdown() goes on
+            spin(loop, off)
+            conn.go.set()                    # ... and the open completes `off` loop iterations later
+            connfake.settle(loop, 2.0)
+            left = sorted(t.get_coro().cr_code.co_name for t in asyncio.all_tasks(loop) if not t.done() and t is not close)
+            unclosed = [w.tid for w in conn.writers if not w.closed]
+            hist = (f"late-open: connect, password frame held by a slow subscriber, EOF, first reconnect attempt fails, close() (waits in join), "
+                    f"back-off ends: second attempt (connection's own task) in flight, subscriber returns, the open "
+                    f"{'completes' if outcome == 'ok' else 'fails'} {off} loop iteration(s) later")
+            res.case(hist, True)
+            res.count("late-open:" + ("attempt-in-flight,close-in-join" if held and in_join else "precondition-missed"))
+            if not close.done():
+                res.fail("spec", dict(history=hist), "close() returns (it never deadlocks)",
+                         f"close() blocked in {connrun.coro_chain(close)}", "close() returns")
+            elif left or unclosed or conn.protocol.connected.is_set():
+                res.count("late-open:not-clean")
+                detail = (f"after close() returned: tasks {left}, transports never closed {unclosed} (opened: {len(conn.writers)}), "
+                          f"connected={conn.protocol.connected.is_set()}")
+                bad.append((off, detail))
+                if strict:
+                    res.fail("spec", dict(history=hist), "no task created by the protocol, the connection, a device or a sub-device is left pending; the transport is closed",
+                             detail, "no task left, every transport closed")
+            else:
+                res.count("late-open:clean")
+            events._set_running_loop(loop)
+            try:
+                for t in asyncio.all_tasks(loop):
+                    t.cancel()
+                for _ in range(30):
+                    if not loop._ready:
+                        break
+                    loop._run_once()
+            finally:
+                events._set_running_loop(None)
+                asyncio.set_event_loop(None)
+                loop.close()
+    if bad and not strict:
+        res.notes.append(f"W5b-defect-1 reproduces (report mode): a retry attempt succeeding inside shutdown()'s clean-up survives close() at loop "
+                         f"iterations {[k for k, _ in bad]} after join() returned; e.g. {bad[-1][1]}")
+
+
 def run(ctx):
     rng = random.Random(ctx["seed"] * 15485863 + 12)
     res = Result("C12")
@@ -434,6 +541,7 @@ def run(ctx):
             break
     read_queue_variant(res)
     held_open_variant(res, ctx["tier"])
+    late_open_variant(res, ctx["tier"])
     res.extra["partial"] = ("liveness is checked for the real event loop on generated histories and proved for the modelled scheduler; "
                             "F1 (unbounded Queues.join) is an open known finding")
     return res
